@@ -1,7 +1,7 @@
 (* Props_C12.v -- property C12: queue, stack, list keep their order discipline
    under all operations and iterators.  ONLY statements closed by `exact`,
    each followed by Print Assumptions. *)
-From LM Require Import Base SeqLemmas Queue QueueProofs Stack StackProofs ListM ListProofs.
+From LM Require Import Base SeqLemmas Queue QueueProofs Stack StackProofs ListM ListProofs ListIter.
 
 (* ---- queue ---- *)
 Theorem C12_queue_invariant : forall dt ops, QInv (final q_step (q_init dt) ops).
@@ -72,6 +72,21 @@ Theorem C12_list_refines_plain_list : forall ceq dt ops,
   snd (run (l_step ceq) (l_init dt) ops) = snd (run (al_step ceq) (l_abs (l_init dt)) ops).
 Proof. exact l_refines_list. Qed.
 Print Assumptions C12_list_refines_plain_list.
+
+(* iterating a list to the end with arbitrary per-element actions -- keep / remove / replace / INSERT a new element before the
+   current one through the iterator: every original element is visited exactly once, in list order (inserted elements are not
+   visited); what remains is exactly the kept / replaced / inserted elements in order; the destructor ran exactly for the
+   removed ones; the list keeps behaving (invariant).  For every user comparator. *)
+Theorem C12_list_iterator_complete_with_insertion : forall ceq dt (pre : list lop) (acts : list lact),
+  let s0 := final (l_step ceq) (l_init dt) pre in
+  let l := l_items (ls_l s0) in
+  let d := l_dtor (ls_l s0) in
+  l_freed (ls_l s0) = false -> ls_itr s0 = None -> length acts = length l -> Forall lact_ok acts ->
+  let r := run (l_step ceq) s0 (LItrNew :: l_iter_script acts) in
+  LInv (fst r) /\ l_items (ls_l (fst r)) = apply_lacts l acts /\ ls_itr (fst r) = None /\
+  visits (tl (snd r)) = l /\ dtors (tl (snd r)) = (if d then lacts_dtors l acts else []).
+Proof. exact l_iterate_all. Qed.
+Print Assumptions C12_list_iterator_complete_with_insertion.
 
 (* ---- the hypotheses are satisfiable: a concrete non-trivial run ---- *)
 Example C12_nonvacuous :
